@@ -15,7 +15,7 @@ def store_owner(world):
 
 def faulty(op):
     f = op.get("faults") or {}
-    return bool(f.get("calls") or f.get("stores") or f.get("cut_at") or f.get("interrupt_at"))
+    return bool(f.get("calls") or f.get("stores") or f.get("cut_at") or f.get("interrupt_at") or f.get("interrupt_at_op"))
 
 
 # --------------------------------------------------------------------------
